@@ -14,6 +14,10 @@ PROP = Property(
         {"func": "core/eventloop/queue.go:queue.len", "order": LOCKED},
         {"func": "core/eventloop/eventloop.go:Register", "order": ["Lock", "defer Unlock", "IndexFunc", "Lock", "defer Unlock"]},
         {"func": "core/eventloop/eventloop.go:DelayUntil", "order": ["Lock", "append", "Unlock"]},
+        # the ring's fields are written by the constructor and the translated methods only
+        {"func": "pkg:core/eventloop#writers.queue.entries", "exact": ["newQueue", "queue.push"]},
+        {"func": "pkg:core/eventloop#writers.queue.head", "exact": ["newQueue", "queue.push", "queue.pop"]},
+        {"func": "pkg:core/eventloop#writers.queue.tail", "exact": ["newQueue", "queue.push", "queue.pop"]},
         # shape of the dispatch: snapshot under the lock, handlers after unlocking, deferred re-dispatch
         {"func": "core/eventloop/eventloop.go:EventLoop.processEvent",
          "order": ["defer dispatchDelayedEvents", "Lock", "append", "append", "Unlock", "handler", "handler"]},
